@@ -480,6 +480,38 @@ theorem getRoots_ok_iff (r : Rsp (List (Option Bytes))) (cs : List Bytes) :
 
 example : plainGet (⟨200, [1], some 5⟩ : Rsp Nat) = .ok 5 ∧ plainGet (⟨404, [2], some 5⟩ : Rsp Nat) = .rspErr 404 [2] ∧ plainGet (⟨200, [3], none⟩ : Rsp Nat) = .rspErr 200 [3] := by decide
 
+/-- **temporal client, get-roots.** `TemporalLogClient.GetAcceptedRoots` hands back roots only when **every** shard answered with
+a decodable 200 whose certificates are all base64; one failing shard makes the whole call an error, and an error never
+comes with a partially filled list (`temporalRoots` is an `Option`: the real client is held to it by the `troots` oracle). -/
+theorem temporalRoots_some_iff (shards : List (Option (Rsp (List (Option Bytes))))) :
+    (temporalRoots shards).isSome = true ↔
+      ∀ s ∈ shards, ∃ r cs, s = some r ∧ getRoots r = .ok cs := by
+  unfold temporalRoots
+  constructor
+  · intro h
+    by_cases hall : shards.all shardOk = true
+    · intro s hs
+      have := List.all_eq_true.mp hall s hs
+      cases s with
+      | none => simp [shardOk] at this
+      | some r =>
+        cases hg : getRoots r with
+        | ok cs => exact ⟨r, cs, rfl, hg⟩
+        | rspErr a b => simp [shardOk, hg, Res.isOk] at this
+        | err => simp [shardOk, hg, Res.isOk] at this
+        | panic => simp [shardOk, hg, Res.isOk] at this
+    · simp [hall] at h
+  · intro h
+    have hall : shards.all shardOk = true := by
+      apply List.all_eq_true.mpr
+      intro s hs
+      obtain ⟨r, cs, rfl, hg⟩ := h s hs
+      simp [shardOk, hg, Res.isOk]
+    simp [hall]
+
+example : temporalRoots [some ⟨200, [], some [some [1]]⟩, some ⟨200, [], some [some [2], some [3]]⟩] = some [[1], [2], [3]] ∧
+    temporalRoots [some ⟨200, [], some [some [1]]⟩, some ⟨500, [], none⟩] = none ∧ temporalRoots [some ⟨200, [], some [some [1]]⟩, none] = none := by decide
+
 /-- **entry_decoder_total_consistent.** `RawLogEntryFromLeaf` is a total function of arbitrary `leaf_input` and
 `extra_data` (it is one in the model; the harness checks the real one never panics), and when it returns an entry, that
 entry re-encodes to exactly the two inputs: nothing is dropped, defaulted or reinterpreted, the submitted certificate
